@@ -439,6 +439,7 @@ func (m *Model) renderTarget(t *Target) string {
 	if t.Gen {
 		fmt.Fprintf(&b, "%svf.write(%s, vf.digest(\"gen\", %s, %d, ins, srcs, deps))\n", indent, quote(m.GenPath(id)), quote(lbl), t.Salt)
 	}
+	fmt.Fprintf(&b, "%svf.point(%s, \"late\")\n", indent, quote(lbl))
 	fmt.Fprintf(&b, "%svf.log(%s, \"end\")\n", indent, quote(lbl))
 	fn := fname
 	if body == 2 {
